@@ -6,8 +6,9 @@ From Qryn Require Import model.Quote model.ChLex model.Like model.SqlSites model
 From Qryn Require Import proofs.QuoteProofs proofs.ChLexProofs proofs.LikeProofs proofs.SqlSitesProofs proofs.SqlTemplateProofs
   proofs.SqlPiecesProofs.
 From Qryn Require model.TqSql model.TqPieces proofs.TqPiecesProofs.   (* qualified: TqSql re-uses the names of Sql *)
+From Qryn Require model.Traceql model.TraceqlPlan proofs.TqEraseProofs.
 From Qryn Require Import model.WSites gen.GenC10WSites proofs.WSitesProofs.
-From Qryn Require model.Logql model.LogqlPlan model.PromSel model.ProfSel model.SqlPiecesSel.   (* qualified *)
+From Qryn Require model.Logql model.LogqlPlan model.PromSel model.ProfSel model.SqlPiecesSel proofs.SqlEraseProofs.   (* qualified *)
 Import ListNotations.
 Open Scope string_scope.
 
@@ -237,6 +238,95 @@ Example profile_selection_example :
   end.
 Proof. vm_compute. split; reflexivity. Qed.
 
+(* ---- VALUE-INDEPENDENCE OF A PLANNER, for all requests.  erase_sel q = q with the content of every StringVal erased: two trees with
+   the same erasure differ only inside their values.  Such trees print statements with the same token structure (one literal per
+   value each): *)
+Theorem trees_differing_only_in_values_have_the_same_structure : forall q q' cluster p,
+  SqlPiecesSel.erase_sel q = SqlPiecesSel.erase_sel q' -> pieces q cluster = Some p -> pok QN p = true ->
+  exists p', pieces q' cluster = Some p' /\ pok QN p' = true /\ shape p' = shape p /\
+    render q cluster = Some (flat p) /\ render q' cluster = Some (flat p') /\
+    skeleton (lex (flat p')) = skeleton (lex (flat p)) /\
+    lex (flat p') = etoks QN p' /\ List.length (rvalues p') = List.length (rvalues p).
+Proof. exact SqlEraseProofs.erased_equal_same_structure. Qed.
+Print Assumptions trees_differing_only_in_values_have_the_same_structure.
+
+(* The Pyroscope selector planner (model/ProfSel.v prof_selector_abs = StreamSelectorPlanner.Process, tied byte for byte by C17) is
+   value-independent: two selector lists with the same operators and the same pseudo labels (names of stored labels and all values
+   arbitrary), to which the planner's one question about a value - does the selector accept the empty string - has the same
+   answers, are planned into trees with the same erasure; hence, for ALL profile selectors: the statement for any values has the
+   token structure of the statement for harmless values in the same positions, with exactly one literal per value.  (The
+   hypothesis about the empty string is not a guard on hostile input: it only says which of the two plans is compared.) *)
+Theorem profile_selector_planner_is_value_independent : forall re t a b cluster sels sels' p,
+  Forall2 (fun s s' => SqlPiecesSel.sel_variant s s' /\ ProfSel.sel_accepts_absent re s = ProfSel.sel_accepts_absent re s') sels sels' ->
+  pieces (ProfSel.prof_selector_abs re t a b sels) cluster = Some p -> pok QN p = true ->
+  exists p', pieces (ProfSel.prof_selector_abs re t a b sels') cluster = Some p' /\ pok QN p' = true /\ shape p' = shape p /\
+    render (ProfSel.prof_selector_abs re t a b sels) cluster = Some (flat p) /\
+    render (ProfSel.prof_selector_abs re t a b sels') cluster = Some (flat p') /\
+    skeleton (lex (flat p')) = skeleton (lex (flat p)) /\
+    lex (flat p') = etoks QN p' /\ List.length (rvalues p') = List.length (rvalues p).
+Proof. exact SqlEraseProofs.profile_selector_value_independent. Qed.
+Print Assumptions profile_selector_planner_is_value_independent.
+
+Example profile_selector_variant_example :
+  let re := fun _ _ : string => false in
+  let s := {| ProfSel.sl_name := "job"; ProfSel.sl_op := Logql.MRe; ProfSel.sl_val := "zqxmark" |} in
+  let s' := {| ProfSel.sl_name := "pod"; ProfSel.sl_op := Logql.MRe; ProfSel.sl_val := "x') OR ('1'='1" |} in
+  let t := {| ProfSel.sl_name := "__name__"; ProfSel.sl_op := Logql.MNeq; ProfSel.sl_val := "cpu" |} in
+  let t' := {| ProfSel.sl_name := "__name__"; ProfSel.sl_op := Logql.MNeq; ProfSel.sl_val := "\'; --" |} in
+  Forall2 (fun s s' => SqlPiecesSel.sel_variant s s' /\ ProfSel.sel_accepts_absent re s = ProfSel.sel_accepts_absent re s') [s; t] [s'; t'] /\
+  match pieces (ProfSel.prof_selector_abs re "profiles_series_gin" 1700000000000000000 1700003600000000000 [s; t]) false with
+  | Some p => pok QN p = true /\ rvalues p = [":"; "cpu"; "job"; "^(?:zqxmark)$"; "job"; "^(?:zqxmark)$"]
+  | None => False
+  end.
+Proof.
+  split; [|vm_compute; split; reflexivity].
+  constructor; [split; [split; reflexivity|reflexivity]|].
+  constructor; [split; [split; reflexivity|reflexivity]|constructor].
+Qed.
+
+(* The PromQL matcher planner (model/PromSel.v querier_transpile = what CLokiQuerier.Select plans: TranspileLabelMatchers or
+   TranspileLabelMatchersDownsample over fingerprintsQuery, StreamSelectPlanner, the hints planners and the WITH hoisting of
+   Select.AddWith; tied byte for byte by C17) is value-independent: two matcher lists with the same operators (label names and
+   values arbitrary), to which the planner's one question about a value - does the matcher accept the empty string - has the
+   same answers, are planned into trees with the same erasure.  Hence, for ALL matcher lists, hints and contexts: the statement
+   for any values has the token structure of the statement for harmless values, with exactly one literal per value. *)
+Theorem promql_matcher_planner_is_value_independent : forall re cluster db h ms ms' p,
+  Forall2 (fun m m' => SqlPiecesSel.matcher_variant m m' /\ PromSel.accepts_empty re m = PromSel.accepts_empty re m') ms ms' ->
+  pieces (fst (PromSel.querier_transpile re cluster db h ms)) cluster = Some p -> pok QN p = true ->
+  exists p', pieces (fst (PromSel.querier_transpile re cluster db h ms')) cluster = Some p' /\ pok QN p' = true /\ shape p' = shape p /\
+    PromSel.select_sql re cluster db h ms = Some (flat p) /\ PromSel.select_sql re cluster db h ms' = Some (flat p') /\
+    skeleton (lex (flat p')) = skeleton (lex (flat p)) /\
+    lex (flat p') = etoks QN p' /\ List.length (rvalues p') = List.length (rvalues p).
+Proof. exact SqlEraseProofs.promql_querier_value_independent. Qed.
+Print Assumptions promql_matcher_planner_is_value_independent.
+
+(* the same for the exported transpiler entry point with any planner context (TranspileLabelMatchers) *)
+Theorem promql_transpiler_is_value_independent : forall re h c cluster ms ms' p,
+  Forall2 (fun m m' => SqlPiecesSel.matcher_variant m m' /\ PromSel.accepts_empty re m = PromSel.accepts_empty re m') ms ms' ->
+  pieces (PromSel.transpile_label_matchers re h c ms) cluster = Some p -> pok QN p = true ->
+  exists p', pieces (PromSel.transpile_label_matchers re h c ms') cluster = Some p' /\ pok QN p' = true /\ shape p' = shape p /\
+    render (PromSel.transpile_label_matchers re h c ms) cluster = Some (flat p) /\
+    render (PromSel.transpile_label_matchers re h c ms') cluster = Some (flat p') /\
+    skeleton (lex (flat p')) = skeleton (lex (flat p)) /\
+    lex (flat p') = etoks QN p' /\ List.length (rvalues p') = List.length (rvalues p).
+Proof. exact SqlEraseProofs.promql_matchers_value_independent. Qed.
+Print Assumptions promql_transpiler_is_value_independent.
+
+Example promql_matcher_variant_example :
+  let re := fun _ _ : string => false in
+  let h := {| PromSel.h_start := 1700000000000%Z; PromSel.h_end := 1700003600000%Z; PromSel.h_step := 15000%Z; PromSel.h_func := "rate"; PromSel.h_range := 60000%Z |} in
+  let ms := [ {| Logql.m_name := "__name__"; Logql.m_op := Logql.MEq; Logql.m_val := "up" |}; {| Logql.m_name := "job"; Logql.m_op := Logql.MNre; Logql.m_val := "zqxmark" |} ] in
+  let ms' := [ {| Logql.m_name := "a'b"; Logql.m_op := Logql.MEq; Logql.m_val := "\" |}; {| Logql.m_name := "x"; Logql.m_op := Logql.MNre; Logql.m_val := "') OR 1=1 --" |} ] in
+  Forall2 (fun m m' => SqlPiecesSel.matcher_variant m m' /\ PromSel.accepts_empty re m = PromSel.accepts_empty re m') ms ms' /\
+  match pieces (fst (PromSel.querier_transpile re false "qryn" h ms)) false with
+  | Some p => pok QN p = true /\ List.length (rvalues p) = 8%nat
+  | None => False
+  end.
+Proof.
+  split; [|vm_compute; split; reflexivity].
+  constructor; [split; reflexivity|]. constructor; [split; reflexivity|constructor].
+Qed.
+
 (* text level: two segmented texts that differ only inside their value pieces *)
 Theorem same_shape_same_structure : forall p p', shape p = shape p' ->
   forallb (all_chars plain_char) (rqids p') = true -> pok QN p = true ->
@@ -294,6 +384,18 @@ Example traceql_tree_example :
   pok QN (TqPieces.tq_pieces q) = true /\ List.length (rvalues (TqPieces.tq_pieces q)) = 4%nat.
 Proof. vm_compute. split; reflexivity. Qed.
 
+(* the same tree with a hostile request string in place of the marker: four literals, decoding to the hostile bytes *)
+Example traceql_subst_example :
+  let q := TqSql.Sel [] false [TqSql.Col (TqSql.Id "trace_id") ""; TqSql.GroupBitOr (TqSql.BitSet [TqSql.LOp TqSql.OEq [TqSql.Id "key"; TqSql.StrV "zqxmark"]]) "bsCond"]
+             (Some (TqSql.Id "tempo_traces_attrs_gin")) [] None
+             (Some (TqSql.LOp TqSql.OAnd [TqSql.LOp TqSql.OEq [TqSql.Id "key"; TqSql.StrV "zqxmark"];
+                                            TqSql.LOp TqSql.OEq [TqSql.MatchRe (TqSql.Id "val") "^(?:zqxmark)$"; TqSql.IntV 1]]))
+             (Some (TqSql.LOp TqSql.OGt [TqSql.AttrValue "zqxmark"; TqSql.FloatV "5"])) [TqSql.Id "trace_id"] [] (Some (TqSql.IntV 20)) in
+  lits (lex (TqSql.render (TqPieces.tq_marker_subst "zqxmark" "x') OR ('1'='1" q))) =
+  ["x') OR ('1'='1"; "x') OR ('1'='1"; "^(?:x') OR ('1'='1)$"; "x') OR ('1'='1"]
+  /\ skeleton (lex (TqSql.render (TqPieces.tq_marker_subst "zqxmark" "x') OR ('1'='1" q))) = skeleton (lex (TqSql.render q)).
+Proof. vm_compute. split; reflexivity. Qed.
+
 (* ---- THE WRITE SIDE: every statement that writer/ and ctrl/ hand to ClickHouse (Exec / Query / QueryRow / PrepareBatch / Select
    ... of clickhouse-go, database/sql and the repository's client wrappers, and the bodies of ch-go queries), regenerated from
    the source with the provenance of every part of the statement text (translate/gen_wsqlsites, go/types).  No part is of
@@ -323,3 +425,64 @@ Example writer_census_example :
               {| ws_file := "b.go"; ws_line := 2%Z; ws_call := true; ws_sink := "parameter t of f"; ws_pieces := [(WConfig, "")] |} ] [] = true
   /\ wsites_ok [ {| ws_file := "a.go"; ws_line := 1%Z; ws_call := false; ws_sink := "Exec"; ws_pieces := [(WUnclassified, "req.URL.Query().Get(x)")] |} ] [] = false.
 Proof. split; reflexivity. Qed.
+
+(* ---- VALUE-INDEPENDENCE OF THE TRACEQL PLANNERS (C11's model/TraceqlPlan.v: planner.plan over simpleExpressionPlanner, AttrConditionPlanner,
+   the index / aggregator / traces-data / tags / values planners; tied to the real planners per case by C11 and, on hostile requests, by the
+   TraceQL tree-level tie above), for every request with ONE selector and all three entry points.  Two selectors are variants when the
+   term analysis (de-duplication of terms by their text) finds the same condition over pointwise variant terms - same operator, same KIND
+   of label (scope prefix, duration, name; the attribute name behind the prefix is arbitrary), the same value or two quoted strings (both
+   decodable or both not) - and the aggregators are equal.  Then the two plans fail with the same error, or both give a statement, and
+   the statements have the same token structure with one literal per value.  (Requests with several selectors, and a proof that the
+   term analysis of two requests written with the same shape agrees, are open.) *)
+Theorem traceql_planner_is_value_independent : forall c h h' ao ao' m m' n,
+  TqEraseProofs.selector_variant h h' -> TqEraseProofs.mode_variant m m' ->
+  match TraceqlPlan.plan (Traceql.Script h ao None) m c n, TraceqlPlan.plan (Traceql.Script h' ao' None) m' c n with
+  | TraceqlPlan.Ok s, TraceqlPlan.Ok s' =>
+      pok QN (TqPieces.tq_pieces s) = true ->
+      pok QN (TqPieces.tq_pieces s') = true /\ shape (TqPieces.tq_pieces s') = shape (TqPieces.tq_pieces s) /\
+      skeleton (lex (TqSql.render s')) = skeleton (lex (TqSql.render s)) /\
+      lex (TqSql.render s') = etoks QN (TqPieces.tq_pieces s') /\
+      List.length (rvalues (TqPieces.tq_pieces s')) = List.length (rvalues (TqPieces.tq_pieces s))
+  | TraceqlPlan.Err e, TraceqlPlan.Err e' => e = e'
+  | TraceqlPlan.Panic, TraceqlPlan.Panic => True
+  | _, _ => False
+  end.
+Proof. exact TqEraseProofs.traceql_planner_value_independent. Qed.
+Print Assumptions traceql_planner_is_value_independent.
+
+(* two TraceQL trees with the same erasure have the same statement structure *)
+Theorem traceql_trees_differing_only_in_values_have_the_same_structure : forall s s',
+  TqPieces.tq_erase_sel s = TqPieces.tq_erase_sel s' -> pok QN (TqPieces.tq_pieces s) = true ->
+  pok QN (TqPieces.tq_pieces s') = true /\ shape (TqPieces.tq_pieces s') = shape (TqPieces.tq_pieces s) /\
+  skeleton (lex (TqSql.render s')) = skeleton (lex (TqSql.render s)) /\
+  lex (TqSql.render s') = etoks QN (TqPieces.tq_pieces s') /\
+  List.length (rvalues (TqPieces.tq_pieces s')) = List.length (rvalues (TqPieces.tq_pieces s)).
+Proof. exact TqEraseProofs.tq_erased_equal_same_structure. Qed.
+Print Assumptions traceql_trees_differing_only_in_values_have_the_same_structure.
+
+(* the hypotheses are met by {.foo=~"zqxmark"} and {.b-c=~"x') OR ('1'='1"} *)
+Example traceql_variant_example :
+  let sv := fun tok unq => {| Traceql.v_time := ""; Traceql.v_f := ""; Traceql.v_str := Some tok; Traceql.v_unq := Some unq;
+                              Traceql.v_ffmt := None; Traceql.v_dur := None |} in
+  let t := {| Traceql.a_label := ".foo"; Traceql.a_op := Traceql.CRe; Traceql.a_val := sv """zqxmark""" "zqxmark" |} in
+  let t' := {| Traceql.a_label := ".b-c"; Traceql.a_op := Traceql.CRe; Traceql.a_val := sv """x') OR ('1'='1""" "x') OR ('1'='1" |} in
+  let h := {| Traceql.sel_attr := Some (Traceql.AExp (Traceql.HTerm t) Traceql.AONone None); Traceql.sel_agg := None |} in
+  let h' := {| Traceql.sel_attr := Some (Traceql.AExp (Traceql.HTerm t') Traceql.AONone None); Traceql.sel_agg := None |} in
+  let c := {| TraceqlPlan.from_ns := 1700000000000000000%Z; TraceqlPlan.to_ns := 1700003600000000000%Z;
+              TraceqlPlan.from_date := "2023-11-14"; TraceqlPlan.to_date := "2023-11-14"; TraceqlPlan.ffd_from := "2023-11-14"; TraceqlPlan.ffd_to := "2023-11-14";
+              TraceqlPlan.limit := 20%Z; TraceqlPlan.is_cluster := false; TraceqlPlan.rf_max := 0%Z; TraceqlPlan.rf_i := 0%Z; TraceqlPlan.cached := [];
+              TraceqlPlan.attrs_table := "tempo_traces_attrs_gin"; TraceqlPlan.attrs_dist_table := "tempo_traces_attrs_gin_dist";
+              TraceqlPlan.traces_table := "tempo_traces"; TraceqlPlan.traces_dist_table := "tempo_traces_dist"; TraceqlPlan.kv_dist_table := "tempo_traces_kv_dist" |} in
+  TqEraseProofs.selector_variant h h' /\
+  match TraceqlPlan.plan (Traceql.Script h Traceql.AONone None) TraceqlPlan.MSearch c 1 with
+  | TraceqlPlan.Ok s => pok QN (TqPieces.tq_pieces s) = true /\ List.length (rvalues (TqPieces.tq_pieces s)) = 6%nat
+  | _ => False
+  end.
+Proof.
+  split; [|vm_compute; split; reflexivity].
+  split; [reflexivity|]. split; [|reflexivity].
+  constructor; [|constructor].
+  split; [reflexivity|]. split; [reflexivity|]. right.
+  split; [discriminate|]. split; [discriminate|]. split; [split; intro H; vm_compute in H; discriminate|]. split; reflexivity.
+Qed.
+
